@@ -171,7 +171,9 @@ impl Game {
 
         match maybe_chess_move {
             Some(result) => Ok(result.clone()),
-            None => return Err(GameError::InvalidMove),
+            // The suggested book move is not playable here (e.g. the game did not
+            // start from the standard position), so fall back to searching.
+            None => self.select_alpha_beta_best_move(),
         }
     }
 
